@@ -157,8 +157,15 @@ Kinds(k) == T("tag_kinds", k)          \* exactly one tag-kind predicate holds
 
 ----------------------------------------------------------------------------
 (* encodings: the part of the traits a <ref> shares with its target *)
-HasMinMax(t) == t.length = 1 /\ t.presence # "constant"
-HasNull(t) == t.length = 1 /\ t.presence = "optional"
+\* length of a <type>: the attribute, else 1 - except for a char constant whose
+\* length is not given: its length is that of its text ("string constant with
+\* deduced length", test/schemas/test_schema.xml; the repository's traits tests
+\* assert it).  Found when the repository's traits_test_schema was run through
+\* this module: the rule "attribute or 1" was a false alarm of the specification.
+TLen(t) == IF ~t.lengthGiven /\ t.prim = "char" /\ t.presence = "constant" /\ t.const # "" /\ t.valueRef = ""
+           THEN Len(t.const) ELSE t.length
+HasMinMax(t) == TLen(t) = 1 /\ t.presence # "constant"
+HasNull(t) == TLen(t) = 1 /\ t.presence = "optional"
 \* explicit integers are compared verbatim (schemas give them in canonical
 \* decimal), explicit float/double lexemes through FpText; explicit values of
 \* char types are left out
@@ -183,14 +190,14 @@ MinMaxNull(t) ==
 TypeValueType(t, path) ==
   IF t.presence = "constant"
   THEN T("value_type_form", "plain")
-       \o (IF t.length = 1 THEN T("value_type", "prim:" \o t.prim)
+       \o (IF TLen(t) = 1 THEN T("value_type", "prim:" \o t.prim)
            ELSE T("value_type", "tag:" \o PathStr(path)))
-  ELSE T("value_type_form", IF t.length = 1 THEN "plain" ELSE "template")
+  ELSE T("value_type_form", IF TLen(t) = 1 THEN "plain" ELSE "template")
        \o T("value_type", "tag:" \o PathStr(path))
 
 TypeShared(t, path) ==
   T("presence", t.presence) \o T("primitive_type", t.prim)
-  \o T("length", Str(t.length)) \o T("rt_length", "uint64")
+  \o T("length", Str(TLen(t))) \o T("rt_length", "uint64")
   \o T("semantic_type", t.sem)
   \o Opt(t.charEnc # "", T("character_encoding", t.charEnc))
   \o MinMaxNull(t) \o TypeValueType(t, path)
@@ -300,12 +307,12 @@ FieldValueType(f) ==
        IN CASE t.kind = "type" ->
                  IF const
                  THEN T("value_type_form", "plain")
-                      \o (IF t.length = 1
+                      \o (IF TLen(t) = 1
                           THEN T("value_type", "prim:" \o t.prim)
                                \* "Not available for constants of numeric types"
                                \o Opt(t.prim # "char", T("has_value_type_tag", "false"))
                           ELSE T("value_type", "tag:" \o tp))
-                 ELSE T("value_type_form", IF t.length = 1 THEN "plain" ELSE "template")
+                 ELSE T("value_type_form", IF TLen(t) = 1 THEN "plain" ELSE "template")
                       \o T("value_type", "tag:" \o tp)
                       \o T("has_value_type_tag", "true") \o T("value_type_tag", tp)
             [] t.kind \in {"enum", "set"} ->
@@ -321,7 +328,7 @@ FieldValueType(f) ==
 FpConstant(f) ==
   IF IsPrim(f.type) THEN <<>>
   ELSE LET t == TypeNamed(f.type)
-       IN Opt(t.kind = "type" /\ t.presence = "constant" /\ t.length = 1 /\ IsFp(t.prim)
+       IN Opt(t.kind = "type" /\ t.presence = "constant" /\ TLen(t) = 1 /\ IsFp(t.prim)
               /\ t.const # "" /\ FpText(t.prim, t.const) # "",
               T("constant_value", FpText(t.prim, t.const)))
 
